@@ -32,7 +32,7 @@ class C(Exception):
     pass
 
 
-KINDS = ("ok", "caught", "sub", "other", "cancelled", "base")
+KINDS = ("ok", "caught", "sub", "other", "cancelled", "base", "group")
 CATCHING = (
     ("class A", lambda: A),
     ("tuple (A,)", lambda: (A,)),
@@ -89,12 +89,16 @@ class C14(Prop):
         calls = []
         for ci in range(ncalls):
             seq_len = s.draw(limit + 3, "seq-len")
-            seq = [KINDS[s.weighted((2, 5, 2, 1, 1, 1), "outcome")] for _ in range(seq_len)]
+            seq = [KINDS[s.weighted((4, 10, 4, 2, 2, 2, 1), "outcome")] for _ in range(seq_len)]
             durs = [(0, 0, 64, -1)[s.draw(4, "dur")] if is_async else 0 for _ in range(seq_len + 1)]
             calls.append({"outcomes": seq, "durations": durs})
         delay_name = ("none", "float", "int", "callable", "float", "float-zero", "int-zero")[dk]
+        # the wrapped function has keyword parameters named like the decorator's own options
+        extra_kwargs = {"limit": 77, "delay": 0.5, "catching": 1, "function": 2, "attempt": 3} if s.chance(1, 3, "odd-kwargs") else {}
+        pre_cancelled = is_async and profile != "async-sweep" and s.chance(1, 6, "pre-cancelled")
         sim.program = {"variant": profile, "limit": limit, "catching": catching_name, "delay": delay_name,
-                       "calls": calls, "delay_table": table,
+                       "calls": calls, "delay_table": table, "extra_kwargs": sorted(extra_kwargs),
+                       "caller_swallowed_a_cancel_before": int(pre_cancelled),
                        "cancel_at_iteration": sim.inject_choice if profile == "async-sweep" else 0}
 
         if catching_make is None:
@@ -107,7 +111,9 @@ class C14(Prop):
         for ci, spec in enumerate(calls):
             seq = spec["outcomes"]
             excs = [{"ok": None, "caught": A((ci, k)), "sub": A1((ci, k)), "other": B((ci, k)),
-                     "cancelled": asyncio.CancelledError(), "base": InjectedBase((ci, k))}[kind] for k, kind in enumerate(seq)]
+                     "cancelled": asyncio.CancelledError(), "base": InjectedBase((ci, k)),
+                     # a group made only of caught instances is itself caught only if ExceptionGroup is in the caught set
+                     "group": ExceptionGroup("several", [A((ci, k)), A1((ci, k))])}[kind] for k, kind in enumerate(seq)]
             per.append({"seq": seq, "durs": spec["durations"], "excs": excs,
                         "values": [Obj(("v", ci, k)) for k in range(len(seq) + 1)], "attempts": [], "delay_calls": [],
                         "out": {"kind": None, "obj": None, "at": None}})
@@ -115,7 +121,8 @@ class C14(Prop):
         state = {"cancel_seq": None, "cancel_ret": None, "cancel_at": None}
 
         def delay_fn(attempt, exc):
-            ci = exc.args[0][0] if exc.args and isinstance(exc.args[0], tuple) else 0
+            probe = exc.exceptions[0] if isinstance(exc, ExceptionGroup) else exc
+            ci = probe.args[0][0] if probe.args and isinstance(probe.args[0], tuple) else 0
             per[ci]["delay_calls"].append((attempt, exc))
             return table[min(attempt, limit) - 1] * GRID if attempt >= 1 else 0.0
 
@@ -137,7 +144,7 @@ class C14(Prop):
             return await real_async_sleep(delay, result)
 
         def body_common(ci, k, args, kwargs):
-            if args != ("a", ci) or kwargs != {"kw": "k"}:
+            if args != ("a", ci) or kwargs != {"kw": "k", **extra_kwargs}:
                 sim.fail("arguments", f"attempt {k} of call {ci} received args={args!r} kwargs={kwargs!r}")
             if ci == 0 and state["cancel_ret"] and state["cancel_seq"] is not None:
                 sim.fail("attempt-after-cancel", f"attempt {k} started after the caller had been cancelled")
@@ -184,11 +191,18 @@ class C14(Prop):
 
         async def caller(ci):
             out = per[ci]["out"]
+            if pre_cancelled:
+                # the calling task handled a cancellation earlier (no uncancel): retrying must work as usual
+                asyncio.current_task().cancel()
+                try:
+                    await asyncio.sleep(0)
+                except asyncio.CancelledError:
+                    sim.stats["caller_swallowed_cancel_before_call"] += 1
             try:
                 if is_async:
-                    r = await wrapped("a", ci, kw="k")
+                    r = await wrapped("a", ci, kw="k", **extra_kwargs)
                 else:
-                    r = wrapped("a", ci, kw="k")
+                    r = wrapped("a", ci, kw="k", **extra_kwargs)
             except asyncio.CancelledError as exc:
                 out["kind"], out["obj"] = "cancelled", exc
             except BaseException as exc:  # noqa: BLE001
